@@ -143,9 +143,11 @@ structure Node where
   nextKey : Nat
   defer : Bool := false         -- remove_tunnel_delay > 0: remove_* only pops the entry when its sleep is over
   doomed : List (Nat × Nat) := []   -- sleeping remove_* tasks: (0 circuit | 1 relay | 2 exit socket, id)
+  gated : Bool := false             -- should_join_circuit is overridden by a hook that really suspends
+  pending : List (Nat × Nat × Nat × Nat × Nat) := []   -- CREATEs waiting in that hook: (src, cid, ident, pk, dh)
   deriving DecidableEq, Repr
 
-def Node.init (i : Nat) : Node := ⟨i, [], [], [], [], [], 0, false, []⟩
+def Node.init (i : Nat) : Node := ⟨i, [], [], [], [], [], 0, false, [], false, []⟩
 
 inductive Out (B : Type) where
   | cell (dst : Nat) (c : Cell B)
@@ -281,15 +283,36 @@ def relayCell (n : Node) (c : Cell B) (nx : Relay) : Node × List (Out B) :=
        [Out.cell nx.hop.addr { c with cid := nx.next, body := b }])
 
 /-- on_create + should_join_circuit + join_circuit -/
-def onCreate (n : Node) (src cid ident pk dh : Nat) : Node × List (Out B) :=
-  if Gen.createRefused true (n.created.contains cid) (has n.circuits cid) (has n.relays cid) (has n.exits cid) then (n, [])
-  else if Gen.joinRefused n.relays.length n.exits.length then (n, [])
+def joinCircuit (n : Node) (src cid ident pk dh : Nat) : Node × List (Out B) :=
+  let k := n.freshKey
+  if n.created.contains cid then
+    -- a CreatedRequestCache for this id exists: its constructor raises.  Generated: the cache comes before the table write
+    ((if Gen.joinCacheFirst then n
+      else { n with exits := set n.exits cid ⟨⟨pk, src, k⟩, 0, []⟩, nextKey := n.nextKey + 1 }), [])
   else
-    let k := n.freshKey
     let n1 : Node := { n with created := n.created ++ [cid],
                               exits := set n.exits cid ⟨⟨pk, src, k⟩, 0, []⟩,
                               nextKey := n.nextKey + 1 }
     sendMsg A n1 src cid (.created ident k n.self dh)
+
+/-- what on_create does once should_join_circuit has returned: re-check of the id, the hook's verdict, join_circuit -/
+def joinNow (n : Node) (src cid ident pk dh : Nat) : Node × List (Out B) :=
+  -- generated: after the await the id is checked again (created-cache and the three tables)
+  if Gen.createRecheckRefused (n.created.contains cid) (has n.circuits cid) (has n.relays cid) (has n.exits cid) then (n, [])
+  else if Gen.joinRefused n.relays.length n.exits.length then (n, []) else joinCircuit A n src cid ident pk dh
+
+def onCreate (n : Node) (src cid ident pk dh : Nat) : Node × List (Out B) :=
+  if Gen.createRefused true (n.created.contains cid) (has n.circuits cid) (has n.relays cid) (has n.exits cid) then (n, [])
+  else if n.gated then ({ n with pending := n.pending ++ [(src, cid, ident, pk, dh)] }, [])   -- suspended in the hook
+  else joinNow A n src cid ident pk dh
+
+/-- the hook of the k-th waiting CREATE returns: should_join_circuit is evaluated and join_circuit runs — the guards of
+    on_create are NOT evaluated again -/
+def joinRelease (n : Node) (k : Nat) : Node × List (Out B) :=
+  match n.pending[k]? with
+  | none => (n, [])
+  | some (src, cid, ident, pk, dh) =>
+    joinNow A { n with pending := n.pending.eraseIdx k } src cid ident pk dh
 
 def popCreate : List CreateReq → Nat → Nat → Option (CreateReq × List CreateReq)
   | [], _, _ => none
@@ -627,6 +650,11 @@ def onEstablishIntro (n : Node) (intros : List (Nat × Nat × Nat)) (cid pk info
 def dropIntros (intros : List (Nat × Nat × Nat)) (cid : Nat) : List (Nat × Nat × Nat) :=
   intros.filter (fun r => r.2.1 != cid)
 
+/-- remove_exit_socket override, rendezvous side: `rendezvous_point_for` (cookie, exit socket id) loses EVERY cookie of
+    the removed socket (a circuit may have registered several) -/
+def dropCookies (cookies : List (Nat × Nat)) (cid : Nat) : List (Nat × Nat) :=
+  cookies.filter (fun r => r.2 != cid)
+
 /-! ### events of one node, as a single step function (used by the invariant theorems) -/
 inductive Ev (B : Type) where
   | cell (src : Nat) (c : Cell B) (ch : Choice)
@@ -645,6 +673,7 @@ inductive Ev (B : Type) where
   | popCircuit (cid : Nat)
   | popRelay (cid : Nat)
   | popExit (cid : Nat)
+  | joinRelease (k : Nat)
 
 def step {B : Type} (A : Aead B) (n : Node) : Ev B → Node × List (Out B)
   | .cell src c ch => processCell A n src c ch
@@ -663,6 +692,7 @@ def step {B : Type} (A : Aead B) (n : Node) : Ev B → Node × List (Out B)
   | .popCircuit cid => (popCircuit n cid, [])
   | .popRelay cid => (popRelay n cid, [])
   | .popExit cid => (popExit n cid, [])
+  | .joinRelease k => joinRelease A n k
 
 def run {B : Type} (A : Aead B) (n : Node) : List (Ev B) → Node
   | [] => n
